@@ -537,7 +537,26 @@ var faceType = reflect.TypeOf((*font.Face)(nil))
 // difference. Floats are compared by bits (NaN equals itself), *font.Face by identity, other
 // pointers, slices and interfaces deeply; nil and empty slices are the same.
 func firstDiff(a, b any) string {
-	return diffValue(reflect.ValueOf(a), reflect.ValueOf(b), "")
+	va, vb := reflect.ValueOf(a), reflect.ValueOf(b)
+	// first pass without building the paths (almost every comparison finds no difference)
+	pathsWanted = false
+	if diffValue(va, vb, "") == "" {
+		return ""
+	}
+	pathsWanted = true
+	d := diffValue(va, vb, "")
+	pathsWanted = false
+	return d
+}
+
+// pathsWanted tells diffValue to build the path of the elements it visits (single goroutine).
+var pathsWanted bool
+
+func sub(path string, format string, arg any) string {
+	if !pathsWanted {
+		return ""
+	}
+	return path + fmt.Sprintf(format, arg)
 }
 
 func diffValue(a, b reflect.Value, path string) string {
@@ -582,13 +601,13 @@ func diffValue(a, b reflect.Value, path string) string {
 			return fmt.Sprintf("%s: length %d vs %d", path, a.Len(), b.Len())
 		}
 		for i := 0; i < a.Len(); i++ {
-			if d := diffValue(a.Index(i), b.Index(i), fmt.Sprintf("%s[%d]", path, i)); d != "" {
+			if d := diffValue(a.Index(i), b.Index(i), sub(path, "[%d]", i)); d != "" {
 				return d
 			}
 		}
 	case reflect.Struct:
 		for i := 0; i < a.NumField(); i++ {
-			if d := diffValue(a.Field(i), b.Field(i), path+"."+a.Type().Field(i).Name); d != "" {
+			if d := diffValue(a.Field(i), b.Field(i), fieldPath(path, a, i)); d != "" {
 				return d
 			}
 		}
@@ -617,7 +636,7 @@ func diffValue(a, b reflect.Value, path string) string {
 			if !bv.IsValid() {
 				return fmt.Sprintf("%s: key %v missing", path, k)
 			}
-			if d := diffValue(a.MapIndex(k), bv, fmt.Sprintf("%s[%v]", path, k)); d != "" {
+			if d := diffValue(a.MapIndex(k), bv, sub(path, "[%v]", k)); d != "" {
 				return d
 			}
 		}
@@ -743,3 +762,10 @@ func drawFeatureTag(t *rapid.T, pf *poolFont) string {
 }
 
 var featureValues = []uint32{0, 1, 1, 2, 3}
+
+func fieldPath(path string, v reflect.Value, i int) string {
+	if !pathsWanted {
+		return ""
+	}
+	return path + "." + v.Type().Field(i).Name
+}
